@@ -106,6 +106,13 @@ theorem wcfg_good (p : MapIn) (hc : p.check = none) (h4 : 4 ≤ p.capsMin) (dela
   show 4 ≤ p.cap o.out
   omega
 
+theorem nodupB_of_nodup : ∀ l : List Nat, l.Nodup → Sig.nodupB l = true
+  | [], _ => rfl
+  | x :: r, h => by
+    have h' := List.nodup_cons.mp h
+    simp only [Sig.nodupB, Bool.and_eq_true, Bool.not_eq_true', List.contains_eq_mem, decide_eq_false_iff_not]
+    exact ⟨h'.1, nodupB_of_nodup r h'.2⟩
+
 /-! ### the theorems -/
 
 /-- **memory level = signal level, any implementation, any level-respecting order.** Accepted certificate, `c_caps_min ≥ 4`,
@@ -165,6 +172,54 @@ theorem inputEnv_h0 (p : MapIn) (m0 : Int → T) :
   · exact absurd rfl (hnw o ho)
   · simp [inputEnv, hx]
   · simp [inputEnv, hx]
+
+/-! ### compact form of the hypotheses (used by the corollaries of C04, C05, C13) -/
+
+/-- `m'` is reached from `m0` by a propagation: the rows of `p` run on memory in some order certified by `schedOKB` (every
+    row once, no row of a later level before a row of an earlier one), every evaluator call honouring `WaveStep` -/
+def Propagated (p : MapIn) (delay : Nat → Bool → Bool → Int) (m0 m' : Int → T) : Prop :=
+  ∃ sched, p.schedOKB sched = true ∧ WaveRun p (wcfg p delay) (schedOps p sched) m0 m'
+
+/-- the signal environment `env0` describes the stimulus stored in `m0`: it agrees with the memory on every tracked
+    signal that no row writes (input slots, zero slot) -/
+def Stimulus (p : MapIn) (m0 : Int → T) (env0 : Nat → Wv) : Prop :=
+  ∀ x ∈ p.tracked, (∀ o ∈ p.ops, o.out ≠ x) → rdWave (p.loc x) (p.cap x) m0 = env0 x
+
+theorem stimulus_inputEnv (p : MapIn) (m0 : Int → T) : Stimulus p m0 (inputEnv p m0) := inputEnv_h0 p m0
+
+/-- moving every time stored in the initial memory rigidly moves the stimulus rigidly -/
+theorem stimulus_aff (k s : Int) (p : MapIn) (m0 : Int → T) (env0 : Nat → Wv) (h : Stimulus p m0 env0) :
+    Stimulus p (fun a => (m0 a).aff k s) (fun x => (env0 x).aff k s) := by
+  intro x hx hnw
+  rw [rdWave_aff, h x hx hnw]
+
+/-- `wave_mem_sound` in compact form -/
+theorem propagated_eq_sim (p : MapIn) (hc : p.check = none) (delay : Nat → Bool → Bool → Int) (m0 m' : Int → T)
+    (env0 : Nat → Wv) (hst : Stimulus p m0 env0) (hpr : Propagated p delay m0 m') :
+    ∀ j s, (j, s) ∈ p.ppoSrcs → rdWave (p.loc j) (p.cap j) m' = simWave (wcfg p delay) (waveProg p) env0 s := by
+  obtain ⟨sched, hs, hrun⟩ := hpr
+  exact wave_mem_sound p hc delay sched (schedOKB_sound p sched hs).1 (schedOKB_sound p sched hs).2 m0 m' env0 hst hrun
+
+/-- propagations exist (program order, deterministic evaluator, any left-overs) -/
+theorem propagated_exists (p : MapIn) (hc : p.check = none) (h4 : 4 ≤ p.capsMin) (delay : Nat → Bool → Bool → Int)
+    (hd : ∀ l a b, 0 ≤ delay l a b) (junk : Int → Nat → Wv → (Int → T) → Int → T) (m0 : Int → T) (env0 : Nat → Wv)
+    (henv : ∀ x, (env0 x).ok) (hst : Stimulus p m0 env0) :
+    Propagated p delay m0 (memRun p (waveRW junk) (waveRow (wcfg p delay) p) p.ops m0) := by
+  have hs : p.schedOKB (List.range p.ops.length) = true := by
+    have h := sched_range p
+    simp only [MapIn.schedOKB, Bool.and_eq_true, List.all_eq_true, decide_eq_true_eq, Bool.or_eq_true,
+      Bool.not_eq_true', decide_eq_false_iff_not]
+    refine ⟨⟨⟨fun k hk => by simpa using hk, fun k hk => by simpa using hk⟩, ?_⟩, ?_⟩
+    · exact nodupB_of_nodup _ List.nodup_range
+    · intro a ha b hb
+      by_cases hab : a.2 ≤ b.2
+      · right
+        exact h.mono a.2 b.2 a.1 b.1 hab (List.mem_zipIdx_iff_getElem?.1 ha) (List.mem_zipIdx_iff_getElem?.1 hb)
+      · left; exact hab
+  refine ⟨List.range p.ops.length, hs, ?_⟩
+  have := wave_memRun_ok p hc h4 delay hd junk _ (sched_range p) m0 env0 henv hst
+  rw [schedOps_range] at this ⊢
+  exact this
 
 /-! ### code-indexed logic semantics on the eight-index rows -/
 
